@@ -409,7 +409,9 @@ def nonneg_targets(ctx, s, dates):
                             evidence += [(bq or bn, tuple(o)) for o in sorted(og)]
                 ctx.ob("N2", ok=not evidence, distinct=(rule_.qual, subtxt))
                 if not evidence:
-                    raise AnalysisError(f"N2: the sign of `{subtxt}` in {rule_.qual} at {d} is unknown without a construct to point at; the sign domain needs a re-read")
+                    # e.g. a parameter that does not exist at this date (C08's matter): no verdict for this site
+                    ctx.skip("N2", f"{rule_.qual}|{subtxt}", f"sign of `{subtxt}` unknown without a construct to point at ({d})")
+                    continue
                 roots = sorted({(q, o[0], o[3]) for q, o in evidence})
                 key = "N2|" + ";".join(f"{q}:{k}:{t}" for q, k, t in roots)
                 n2_sites.setdefault(key, (roots, []))[1].append((str(d), rule_, site, subtxt))
